@@ -5,8 +5,12 @@ PROPS = {}
 for _p in sorted(glob.glob(os.path.join(os.path.dirname(os.path.abspath(__file__)), 'props.d', 'C*.py'))):
     _spec = importlib.util.spec_from_file_location('verif_prop_' + os.path.basename(_p)[:-3], _p)
     _m = importlib.util.module_from_spec(_spec)
-    _spec.loader.exec_module(_m)
-    PROPS[os.path.basename(_p)[:-3]] = _m.PROP
+    try:
+        _spec.loader.exec_module(_m)
+        PROPS[os.path.basename(_p)[:-3]] = _m.PROP
+    except Exception as _e:  # a broken configuration file breaks its own property only
+        import sys as _sys
+        _sys.stderr.write('lib/props.d/%s: %s\n' % (os.path.basename(_p), _e))
 
 # properties deliberately not claimed, with the reason (none: every property has a logic core)
 NOT_APPLICABLE = {}
